@@ -19,6 +19,9 @@ struct SeqV {
     finite: bool,
     /// elements are integers (so `+= d` is meaningful)
     ints: bool,
+    /// widen the index grid by this much on both sides (elements already consumed from an
+    /// advanced stream: the grid must reach -len(original)-3 .. len(original)+3)
+    pad: i64,
 }
 
 #[derive(Clone)]
@@ -131,43 +134,65 @@ const STR_BOUNDARY: &[&str] = &[
 const STR_U_MORE: &[&str] = &["é€", "a𝄞", "𝄞a", "aéb", "€€", "é𝄞é", "𝄞𝄞", "ab€cd", "xyé"];
 
 fn finite_seqs(interp: &Interp, max_len: i64, thorough: bool, notes: &mut Vec<String>) -> Vec<SeqV> {
-    let mut raw: Vec<(&'static str, String, bool)> = vec![];
+    let mut raw: Vec<(&'static str, String, bool, i64)> = vec![];
     let mix = ["1", "\"ab\"", "[7,8]", "null", "2.5", "B\"x\"", "V(1,2)", "[]", "\"é\""];
     for n in 0..=max_len {
         let ints: Vec<String> = (1..=n).map(|k| format!("{}", 10 * k)).collect();
-        raw.push(("list", format!("[{}]", ints.join(",")), true));
+        raw.push(("list", format!("[{}]", ints.join(",")), true, 0));
         if n >= 1 {
             let items: Vec<String> = (0..n as usize).map(|k| mix[k % mix.len()].to_string()).collect();
-            raw.push(("listmix", format!("[{}]", items.join(",")), false));
+            raw.push(("listmix", format!("[{}]", items.join(",")), false, 0));
         }
         let s: String = "abcdefghijklmnopqrstuvwxyz".chars().take(n as usize).collect();
-        raw.push(("str", format!("\"{}\"", s), false));
+        raw.push(("str", format!("\"{}\"", s), false, 0));
         let vs: Vec<String> = (1..=n).map(|k| format!("{}", k)).collect();
-        raw.push(("vec", format!("V({})", vs.join(",")), true));
+        raw.push(("vec", format!("V({})", vs.join(",")), true, 0));
         if n >= 2 {
             let mut vf = vs.clone();
             vf[1] = "2.5".into();
-            raw.push(("vec", format!("V({})", vf.join(",")), false));
+            raw.push(("vec", format!("V({})", vf.join(",")), false, 0));
         }
-        raw.push(("bytes", format!("B\"{}\"", s), true));
+        raw.push(("bytes", format!("B\"{}\"", s), true, 0));
         if n >= 1 {
             let bs: Vec<String> = (0..n).map(|k| format!("{}", 248 + k)).collect();
-            raw.push(("bytes", format!("bytes([{}])", bs.join(",")), true));
+            raw.push(("bytes", format!("bytes([{}])", bs.join(",")), true, 0));
         }
-        raw.push(("range", format!("(1 to {})", n), true));
-        raw.push(("rangestep", format!("(5 til {} by 2)", 5 + 2 * n), true));
-        raw.push(("lazymap", format!("lazy_map(1 to {}, \\x -> x * 10)", n), true));
+        raw.push(("range", format!("(1 to {})", n), true, 0));
+        raw.push(("rangestep", format!("(5 til {} by 2)", 5 + 2 * n), true, 0));
+        raw.push(("lazymap", format!("lazy_map(1 to {}, \\x -> x * 10)", n), true, 0));
+    }
+    // list-backed streams (`stream(seq)`, WrappedVec) at EVERY cursor position, advanced by drop /
+    // tail / uncons, including fully consumed and over-dropped ones; the grid is widened by the
+    // number of consumed elements so that indices reaching before the cursor are exercised
+    for n in 0..=max_len {
+        let ints: Vec<String> = (1..=n).map(|k| format!("{}", 10 * k)).collect();
+        let base = format!("stream([{}])", ints.join(","));
+        for k in 0..=(n + 1) {
+            raw.push(("wstream", format!("({} drop {})", base, k), true, k.min(n)));
+        }
+        if n >= 1 {
+            raw.push(("wstream", format!("tail({})", base), true, 1));
+            raw.push(("wstream", format!("uncons({})[1]", base), true, 1));
+        }
+        if n >= 2 {
+            raw.push(("wstream", format!("tail(tail({}))", base), true, 2));
+        }
+    }
+    for k in [0i64, 1, 3, 4] {
+        raw.push(("wstream", format!("(stream(\"abc\") drop {})", k), false, k.min(3)));
+        raw.push(("wstream", format!("(stream(B\"abc\") drop {})", k), true, k.min(3)));
+        raw.push(("wstream", format!("(stream(V(1,2,3)) drop {})", k), true, k.min(3)));
     }
     for s in STR_U_QUICK.iter().chain(STR_BOUNDARY.iter()) {
-        raw.push(("strU", format!("\"{}\"", s), false));
+        raw.push(("strU", format!("\"{}\"", s), false, 0));
     }
     if thorough {
         for s in STR_U_MORE {
-            raw.push(("strU", format!("\"{}\"", s), false));
+            raw.push(("strU", format!("\"{}\"", s), false, 0));
         }
     }
     let mut out = vec![];
-    for (kind, src, ints) in raw {
+    for (kind, src, ints, pad) in raw {
         match interp.eval(&src) {
             Outcome::Ok(req) => {
                 let len = match interp.eval(&format!("len({})", src)) {
@@ -178,7 +203,7 @@ fn finite_seqs(interp: &Interp, max_len: i64, thorough: bool, notes: &mut Vec<St
                     notes.push(format!("cannot take len of {}", src));
                     continue;
                 }
-                out.push(SeqV { kind, src, req, len, finite: true, ints });
+                out.push(SeqV { kind, src, req, len, finite: true, ints, pad });
             }
             o => notes.push(format!("cannot build sequence {}: {}", src, o.detail())),
         }
@@ -194,6 +219,7 @@ fn infinite_seqs() -> Vec<SeqV> {
         len: 0,
         finite: false,
         ints: true,
+        pad: 0,
     }];
     for n in 1..=3i64 {
         let items: Vec<String> = (1..=n).map(|k| format!("{}", k)).collect();
@@ -207,6 +233,7 @@ fn infinite_seqs() -> Vec<SeqV> {
                 len: n,
                 finite: false,
                 ints: true,
+                pad: 0,
             });
         }
     }
@@ -316,7 +343,7 @@ fn bad_values(s: &SeqV) -> Vec<(&'static str, &'static str)> {
 
 fn gen_for_seq(cases: &mut Vec<Case>, s: &SeqV, rng: &mut Rng, slice_extra_forms: bool) {
     let len = s.len;
-    let mut ints: Vec<BigInt> = ((-len - 3)..=(len + 3)).map(BigInt::from).collect();
+    let mut ints: Vec<BigInt> = ((-len - 3 - s.pad)..=(len + 3 + s.pad)).map(BigInt::from).collect();
     let grid_n = ints.len();
     ints.extend(extreme_ints(len));
     let mut ixs: Vec<Ix> = ints.iter().enumerate().map(|(k, v)| int_ix(v.clone(), (k as u64) + rng.below(2))).collect();
@@ -603,6 +630,7 @@ fn gen_nested(cases: &mut Vec<Case>, rng: &mut Rng, nsrc: &str, nreq: &str, vs: 
         len: 4,
         finite: true,
         ints: true,
+        pad: 0,
     };
     let mut vals: Vec<BigInt> = (-6..=6).map(BigInt::from).collect();
     vals.push(pow2(63) - 1);
@@ -630,6 +658,27 @@ fn gen_nested(cases: &mut Vec<Case>, rng: &mut Rng, nsrc: &str, nreq: &str, vs: 
                 cls,
                 format!("x = {}; r = remove x[{}][{}]; [r, x]", s.src, i.src, j.src),
                 format!("rmip {} {} i={}", s.req, j.req, i.req),
+                true,
+            );
+            // x[i][j] += d and swap x[i][j], y: read through the path, then write through it
+            push(
+                cases,
+                "taddatp",
+                "path",
+                &s,
+                cls,
+                format!("x = {}; y = x; r = try (x[{}][{}] += 5; 1) catch _ -> 0; [r, x, y]", s.src, i.src, j.src),
+                format!("taddatp {} 5 i={} i={}", s.req, i.req, j.req),
+                true,
+            );
+            push(
+                cases,
+                "tswapp",
+                "path",
+                &s,
+                cls,
+                format!("x = {}; y = {}; r = try (swap x[{}][{}], y; 1) catch _ -> 0; [r, x, y]", s.src, vs, i.src, j.src),
+                format!("tswapp {} {} i={} i={}", s.req, vr, i.req, j.req),
                 true,
             );
             if m == 0 {
@@ -682,6 +731,52 @@ fn gen_nested(cases: &mut Vec<Case>, rng: &mut Rng, nsrc: &str, nreq: &str, vs: 
     }
 }
 
+/// three-level paths x[i][j][k] = v / += d on a value whose OUTER levels may be streams
+fn gen_nested3(cases: &mut Vec<Case>, nsrc: &str, nreq: &str) {
+    let s = SeqV { kind: "nested3", src: nsrc.into(), req: nreq.into(), len: 2, finite: true, ints: true, pad: 0 };
+    let vals: Vec<BigInt> = (-3..=3).map(BigInt::from).collect();
+    for (a, i) in vals.iter().enumerate() {
+        for (b, j) in vals.iter().enumerate() {
+            for (c, k) in vals.iter().enumerate() {
+                let (i, j, k) = (int_ix(i.clone(), a as u64), int_ix(j.clone(), b as u64), int_ix(k.clone(), c as u64));
+                let cls = ix_class(&s, &i);
+                push(
+                    cases,
+                    "set",
+                    "path3",
+                    &s,
+                    cls,
+                    format!("x = {}; x[{}][{}][{}] = 9; x", s.src, i.src, j.src, k.src),
+                    format!("set {} 9 i={} i={} i={}", s.req, i.req, j.req, k.req),
+                    true,
+                );
+                push(
+                    cases,
+                    "taddatp",
+                    "path3",
+                    &s,
+                    cls,
+                    format!("x = {}; y = x; r = try (x[{}][{}][{}] += 5; 1) catch _ -> 0; [r, x, y]", s.src, i.src, j.src, k.src),
+                    format!("taddatp {} 5 i={} i={} i={}", s.req, i.req, j.req, k.req),
+                    true,
+                );
+                if c == 0 {
+                    push(
+                        cases,
+                        "every",
+                        "path3",
+                        &s,
+                        cls,
+                        format!("x = {}; every x[{}:][{}][:] = 9; x", s.src, i.src, j.src),
+                        format!("every {} 9 r={};- i={} r=-;-", s.req, i.req, j.req),
+                        true,
+                    );
+                }
+            }
+        }
+    }
+}
+
 fn random_long(cases: &mut Vec<Case>, interp: &Interp, rng: &mut Rng, n_seqs: u64, notes: &mut Vec<String>) {
     for _ in 0..n_seqs {
         let n = rng.range(9, 260);
@@ -707,7 +802,7 @@ fn random_long(cases: &mut Vec<Case>, interp: &Interp, rng: &mut Rng, n_seqs: u6
             Outcome::Ok(l) => l.parse::<i64>().unwrap_or(0),
             _ => 0,
         };
-        let s = SeqV { kind, src, req, len, finite: true, ints };
+        let s = SeqV { kind, src, req, len, finite: true, ints, pad: 0 };
         let pick = |rng: &mut Rng| -> Ix {
             let v = match rng.below(7) {
                 0 => BigInt::from(rng.range(-len - 3, len + 3)),
@@ -890,6 +985,33 @@ fn main() {
             gen_nested(&mut cases, &mut rng, "[\"abc\",\"d\u{e9}\",B\"xy\",V(1,2)]", &req, "65", "65");
         }
         o => notes.push(format!("cannot build nested mixed sequence: {}", o.detail())),
+    }
+    // the OUTER value is a stream of sequences (set_index / modify_existing_index must force it
+    // whatever the number of index steps that follow), and streams nested inside lists
+    for src in [
+        "stream([[10,20],[30],[],[40,50,60]])",
+        "(stream([[1],[10,20],[30],[],[40,50,60]]) drop 1)",
+        "lazy_map(1 to 3, \\k -> [k, k*10])",
+        "([1,2] ^^ 2)",
+        "permutations([1,2,3])",
+        "[1 to 3, [5], (stream([7,8,9]) drop 1), lazy_map(1 to 2, \\k -> k * 3)]",
+        "stream([1 to 2, stream([5,6]), [7]])",
+    ] {
+        match interp.eval(src) {
+            Outcome::Ok(req) => gen_nested(&mut cases, &mut rng, src, &req, "9", "9"),
+            o => notes.push(format!("cannot build {}: {}", src, o.detail())),
+        }
+    }
+    for src in [
+        "stream([[[1,2],[3]],[[4]]])",
+        "[stream([[1,2],[3]]), [[4]]]",
+        "(stream([0, stream([[1,2],[3]]), [[4]]]) drop 1)",
+        "lazy_map(1 to 2, \\k -> [[k, k+1], [k*10]])",
+    ] {
+        match interp.eval(src) {
+            Outcome::Ok(req) => gen_nested3(&mut cases, src, &req),
+            o => notes.push(format!("cannot build {}: {}", src, o.detail())),
+        }
     }
     if thorough {
         random_long(&mut cases, &interp, &mut rng, 5000, &mut notes);
